@@ -33,7 +33,7 @@ CLAIMS = {
    tech="must-facts over go/cfg for the unwrap-before-wrap idiom of marker construction + static payload typing of every Value literal + optional-attribute taint to value constructors (shared with C08)",
    text="Decides: wherever a marker is built its payload is another marker's realV or was tested not to be a marker (at most one layer of marks); every Value literal whose type names a kind carries the Go payload type of that kind; requested types reach null/unknown/empty-collection constructors in package convert only stripped of optional-attribute annotations; collection constructors in convert are guarded by emptiness and Can*Val tests.",
    note="Not decided: that dynamic payloads satisfy the invariants on every path (tuple length equals type length, object attribute sets), NFC normalisation of every string reaching a payload — only construction sites are checked. "),
- "C07": dict(rules=["C07.kind-total","C07.equals-field-coverage","C07.json-tags","C07.strip-rebuilds-everything","C07.conformance-structure","C07.conformance-ignores-optional"],
+ "C07": dict(rules=["C07.kind-total","C07.equals-field-coverage","C07.json-tags","C07.strip-rebuilds-everything","C07.conformance-structure","C07.conformance-ignores-optional","C20.no-alias-out"],
    tech="kind-dispatch coverage + field-coverage of the eight typeImpl.Equals implementations + writer/reader tag-table agreement for type JSON",
    text="Decides: each typeImpl.Equals asserts the other side to its own concrete type and compares every field from both sides; HasDynamicTypes / WithoutOptionalAttributesDeep / MarshalJSON cover all kinds with a panicking residual; testConformance recurses given-vs-want per compound kind and its residual appends an error; the type names written by MarshalJSON equal those accepted by UnmarshalJSON; stripping rebuilds every compound kind and never constructs optional attributes.",
    note="Not decided: the equivalence laws and the conformance characterisation over all type pairs as value facts. "),
